@@ -19,6 +19,7 @@ claimed = {
  "C15": ("Theorems: a send is refused with topic-full iff the topic has a custom limit, size >= limit and delete-oldest is off, and a refusal changes nothing; maintenance never moves the cursor. Correspondence: limits of 1-3 segments, both delete-oldest settings, sends / passes / limit updates vs the model (gate decision, which segment a pass removes, sizes).", "6 (C15)"),
  "C16": ("Theorem: per accepted send the counters grow by exactly the kept messages and their stored size (+24 per written batch), refusals and dropped duplicates add nothing. Exactness of reported figures on every run: monitor compares reported count with the retained messages and reported size with bytes in log files + buffered messages after every step, get_topic figures vs model, before/after restart." + PART_NOTE, "6 (C16)"),
  "C18": ("Theorems: the kept messages of a request have pairwise distinct ids unknown before, first occurrence wins, a distinct id is never dropped, duplicates consume no offset, dedup off keeps everything. Correspondence: repetition patterns within/across batches, persist boundaries and restarts; monitor replays the id set." + PART_NOTE, "6 (C18)"),
+ "C08": ("Theorems (every partition count, every member set, EVERY visiting order of the member hash map): each partition is in exactly one member's share, shares differ by at most one, the assignment covers exactly the current members, a member's partition-less polls rotate through its share, and with next+auto-commit the messages handed out per partition are a prefix of its log in order, none twice, whichever members poll. Correspondence: up to 5 real TCP clients joining/leaving/disconnecting, partitions added/removed, partition-less polls; monitors group_ok / rotation_ok / delivery_ok on the implementation's listings and polls. Simultaneity of a poll with a rebalance is not modelled (partial on 'schedules').", "6 (C08)"),
  "C09": ("Theorems (all permission records, all ids, all histories of user create/update/delete): the Permissioner tables always decide as the requester's current record does; allowed only if the documented hierarchy grants it; records of other streams/topics never matter; monotone in the record; root keeps everything and cannot be deleted or stripped. Correspondence: exhaustive sweep of the real rule functions (1024 global x 1153 stream/topic records x 35 rules in the thorough tier).", "6 (C09)"),
  "C17": ("Theorems (all hash values, partition counts, cursor values, histories of partition changes): key routing in range and deterministic, named partition exact-or-refused, one send = one partition, balanced rotation successor law and even spread; model tied to Topic::append_messages by differential runs with the spec monitor evaluated on the implementation's observations.", "6 (C17)"),
 }
